@@ -154,7 +154,7 @@ class Ctx:
         if boot.R is not None:
             # a case is a pure function of its description: no timers or clock value leak from the previous case
             boot.cancel_all_timers()
-            boot.R.rightNow = 0.0
+            boot.R.rightNow = boot.EPOCH
 
     def drive(self, strategy, n, run_case, shrink=True):
         """Hypothesis-driven search.  `strategy` yields JSON-able case dicts;
